@@ -9,6 +9,7 @@ import (
 	corev1 "k8s.io/api/core/v1"
 	"k8s.io/apimachinery/pkg/api/resource"
 	metav1 "k8s.io/apimachinery/pkg/apis/meta/v1"
+	"k8s.io/apimachinery/pkg/types"
 	fwktype "k8s.io/kube-scheduler/framework"
 
 	"github.com/koordinator-sh/koordinator/apis/extension"
@@ -175,6 +176,97 @@ func ZzvC03PreFilter() {
 	zzverif.Assert(zzverif.Implies(ok, want), "admitted only if used+request stays within the quota's, every ancestor's and (non-preemptible) the min limit")
 	zzverif.Assert(zzverif.Implies(want, ok), "every rejected pod really would have exceeded a limit")
 	zzverif.Observe("ok", zzverif.IteInt64(ok, 1, 0))
+	zzverif.Reach("end")
+}
+
+// ZzvC03Loop: closed loop. Pods are admitted by PreFilter and then reserved, rolled back (Unreserve) or
+// deleted, in any order; the quota's max is never lowered. After every step used <= max on the pod's
+// quota (and on its parent when parent checking is on), and used equals the summed requests of the pods
+// that hold a reservation.
+func ZzvC03Loop() {
+	B := int64(1) << uint(zzverif.Param("bits"))
+	checkParent := zzverif.Choice("enableCheckParent", 2) == 1
+	big := zzvRL{true, false, 1 << 50, 0}.list()
+	mgr := core.NewGroupQuotaManager("", false, big, big)
+	mgr.UpdateClusterTotalResource(big)
+	maxP := zzverif.Int64("P.max", 0, B)
+	maxL := zzverif.Int64("L.max", 0, B)
+	mgr.UpdateQuota(zzvQuota("P", extension.RootQuotaName, true, zzvRL{true, false, maxP, 0}.list()))
+	mgr.UpdateQuota(zzvQuota("L", "P", false, zzvRL{true, false, maxL, 0}.list()))
+	pl := &Plugin{pluginArgs: &config.ElasticQuotaArgs{EnableRuntimeQuota: false, EnableCheckParentQuota: checkParent}, groupQuotaManager: mgr, quotaToTreeMap: map[string]string{"L": "", "P": ""}}
+	np := zzverif.Param("pods")
+	type st struct {
+		pod      *corev1.Pod
+		req      int64
+		exists   bool
+		reserved bool
+	}
+	pods := make([]*st, np)
+	for i := range pods {
+		is := string(rune('0' + i))
+		r := zzverif.Int64("req"+is, 0, B)
+		pod := &corev1.Pod{ObjectMeta: metav1.ObjectMeta{Namespace: "ns", Name: "pod" + is, UID: types.UID("uid" + is), Labels: map[string]string{extension.LabelQuotaName: "L"}}}
+		pod.Spec.Containers = []corev1.Container{{Name: "c", Resources: corev1.ResourceRequirements{Requests: zzvRL{true, false, r, 0}.list()}}}
+		pods[i] = &st{pod: pod, req: r}
+	}
+	usedOf := func(name string) int64 {
+		q := mgr.GetQuotaInfoByName(name).GetUsed()[corev1.ResourceCPU]
+		return q.MilliValue()
+	}
+	steps := zzverif.Param("steps")
+	for s := 0; s < steps; s++ {
+		ss := string(rune('a' + s))
+		p := pods[zzverif.Choice("pod"+ss, np)]
+		switch zzverif.Choice("op"+ss, 3) {
+		case 0: // the pod appears (if new) and goes through PreFilter; on success it is reserved
+			if p.reserved {
+				continue
+			}
+			if !p.exists {
+				mgr.OnPodAdd("L", p.pod)
+				p.exists = true
+			}
+			var held int64
+			for _, o := range pods {
+				if o.reserved {
+					held += o.req
+				}
+			}
+			_, status := pl.PreFilter(context.TODO(), &zzvCycle{data: map[fwktype.StateKey]fwktype.StateData{}}, p.pod, nil)
+			fits := held+p.req <= maxL
+			if checkParent {
+				fits = zzverif.And(fits, held+p.req <= maxP)
+			}
+			zzverif.Assert(zzverif.Iff(status.IsSuccess(), fits), "a pod is admitted exactly when used plus its request stays within the limit of its quota (and of the parent when parent checking is on)")
+			if status.IsSuccess() {
+				pl.Reserve(context.TODO(), nil, p.pod, "node")
+				p.reserved = true
+			}
+		case 1: // roll-back
+			if !p.reserved {
+				continue
+			}
+			pl.Unreserve(context.TODO(), nil, p.pod, "node")
+			p.reserved = false
+		case 2: // deletion
+			if !p.exists {
+				continue
+			}
+			mgr.OnPodDelete("L", p.pod)
+			p.exists, p.reserved = false, false
+		}
+		var held int64
+		for _, o := range pods {
+			if o.reserved {
+				held += o.req
+			}
+		}
+		zzverif.Assert(usedOf("L") == held && usedOf("P") == held, "used equals the summed requests of the pods holding a reservation")
+		zzverif.Assert(usedOf("L") <= maxL, "a quota whose max is not lowered never shows used above max")
+		if checkParent {
+			zzverif.Assert(usedOf("P") <= maxP, "with parent checking the parent never shows used above its max")
+		}
+	}
 	zzverif.Reach("end")
 }
 
